@@ -3,7 +3,7 @@
    rejection of the model with the same exception class. *)
 From Coq Require Import Reals Lra Lia List ZArith.
 From Interval Require Import Interval Xreal.
-From CPL Require Import Model.Base Model.EntropyExact Proofs.EntropyBounds Model.EntropyR Model.EntropyI Corr.C16.
+From CPL Require Import Model.Base Model.EntropyExact Proofs.EntropyBounds Model.EntropyR Model.EntropyI Corr.C16 Proofs.EntropyProofs.
 Import ListNotations.
 Local Open Scope R_scope.
 
@@ -77,4 +77,38 @@ Theorem check_seq_sound steps : Forall (fun s => wf (step_case s)) steps -> chec
 Proof.
   cbn [check_case]. intros Hwf Hchk. rewrite forallb_forall in Hchk. rewrite Forall_forall in *.
   intros s Hs. apply check1_sound; [apply Hwf; exact Hs|apply Hchk; exact Hs].
+Qed.
+
+(* statements about the DOUBLES themselves: the laws hold of the real definitions, the doubles are only within
+   2^-30 of them (mutual_information does return -4.4e-16 on some inputs); what a passing case gives is: *)
+Lemma Rabs_le_inv a b : Rabs a <= b -> - b <= a <= b.
+Proof. intros H. pose proof (Rle_abs a). pose proof (Rle_abs (- a)) as H2. rewrite Rabs_Ropp in H2. lra. Qed.
+
+Corollary mi_double_lower X Y ref m e : X <> [] -> length X = length Y ->
+  check_case (CMI X Y ref (Ok (Some (m, e)))) = true -> - / IZR (2 ^ 30) <= dblR m e.
+Proof.
+  intros Hne Hlen Hchk. pose proof (check1_sound (CMI X Y ref (Ok (Some (m, e)))) (conj Hne Hlen) Hchk) as Hs.
+  unfold sound1 in Hs. cbn [observed real_value] in Hs.
+  pose proof (mi_nonneg sym_dec sym_dec X Y Hne Hlen) as Hnn. apply Rabs_le_inv in Hs. lra.
+Qed.
+
+Corollary shannon_double_lower s ref m e : s <> [] ->
+  check_case (CShannon s ref (Ok (Some (m, e)))) = true -> - / IZR (2 ^ 30) <= dblR m e.
+Proof.
+  intros Hne Hchk. pose proof (check1_sound (CShannon s ref (Ok (Some (m, e)))) Hne Hchk) as Hs.
+  unfold sound1 in Hs. cbn [observed real_value] in Hs.
+  pose proof (shannon_nonneg sym_dec s) as Hnn. apply Rabs_le_inv in Hs. lra.
+Qed.
+
+Corollary mi_double_symm X Y r1 r2 m e m' e' : X <> [] -> length X = length Y ->
+  check_case (CMI X Y r1 (Ok (Some (m, e)))) = true -> check_case (CMI Y X r2 (Ok (Some (m', e')))) = true ->
+  Rabs (dblR m e - dblR m' e') <= 2 * / IZR (2 ^ 30).
+Proof.
+  intros Hne Hlen H1 H2.
+  assert (Hne' : Y <> []) by (destruct Y; [destruct X; [congruence|discriminate Hlen]|discriminate]).
+  pose proof (check1_sound (CMI X Y r1 (Ok (Some (m, e)))) (conj Hne Hlen) H1) as S1.
+  pose proof (check1_sound (CMI Y X r2 (Ok (Some (m', e')))) (conj Hne' (eq_sym Hlen)) H2) as S2.
+  unfold sound1 in S1, S2. cbn [observed real_value] in S1, S2.
+  rewrite (mi_symm sym_dec sym_dec Y X (eq_sym Hlen)) in S2.
+  apply Rabs_le_inv in S1, S2. apply Rabs_le. lra.
 Qed.
